@@ -99,7 +99,49 @@ def case_history(p):
     return out
 
 
-CASES = {"api_history": case_history}
+def case_two_pairings(p):
+    """Two accessories are paired one after the other in one process (any two transports).  What the first pairing returned is the first
+    accessory's record for good: the second pairing neither changes it nor shares state with it, and its own record holds nothing of the first."""
+    import copy
+
+    from vt.env.setuprig import RIGS
+
+    out = []
+    recs = []
+    for k, t in enumerate(p["transports"]):
+        rig = RIGS[t](seed=p.get("seed", 0) + 7 * k)
+        try:
+            exc = rig.start()
+            ret, exc2 = rig.finish(RIGHT) if exc is None else (None, exc)
+            if ret is None:
+                return [("api:honest-pairing-failed", {"transport": t, "nth": k, "err": repr(exc or exc2)[:160]})]
+            data = ret.pairing_data
+            recs.append((t, ret, data, copy.deepcopy(dict(data)), rig.ident.id, rig.ident.pk))
+        finally:
+            rig.close()
+        for j, (tj, rj, dj, snap, idj, pkj) in enumerate(recs):
+            det = {"transports": p["transports"], "record": j, "after_pairing": k}
+            if dict(dj) != snap:
+                changed = sorted(x for x in set(dj) | set(snap) if dj.get(x) != snap.get(x))
+                out.append(("api:record-returned-earlier-changed-by-a-later-pairing", dict(det, changed=changed)))
+            if dict(rj.pairing_data) != snap:
+                out.append(("api:pairing-object-no-longer-holds-its-own-record", det))
+            if dj["AccessoryPairingID"].encode() != idj or bytes.fromhex(dj["AccessoryLTPK"]) != pkj:
+                out.append(("api:returned-accessory-identity-not-the-authenticated-one", det))
+        if k and recs[k][2] is recs[k - 1][2]:
+            out.append(("api:two-pairings-return-the-same-record-object", {"transports": p["transports"]}))
+        if k:
+            t0, t1 = recs[k - 1][0], recs[k][0]
+            own = {"ip": {"AccessoryIP", "AccessoryPort", "AccessoryIPs"}, "coap": {"AccessoryIP", "AccessoryPort"}, "ble": {"AccessoryAddress"}}
+            leaked = (set(recs[k][3]) & (own[t0] - own[t1]))
+            if leaked:
+                out.append(("api:record-carries-fields-of-the-previous-pairing", {"transports": p["transports"], "leaked": sorted(leaked)}))
+        if out:
+            break
+    return out
+
+
+CASES = {"api_history": case_history, "two_pairings": case_two_pairings}
 
 
 def op_counts(seed):
